@@ -75,7 +75,18 @@ def vectors():
     for fam in T.FAMILIES:
         v = VALID[fam][0]
         wrapped += [v + " ", " " + v, "\t" + v, v + "\n", " " + v + " "]
-    return out + INVALID + wrapped
+    # colon faults in the first, a middle and the last field of a valid vector of every version
+    colons = []
+    for fam in T.FAMILIES:
+        v = VALID[fam][0]
+        P = T.PREFIX[fam]
+        f = v[len(P):].split("/")
+        for i in (0, len(f) // 2, len(f) - 1):
+            m, val = f[i].split(":")
+            for bad in ("%s:%s:%s" % (m, val, val), "%s::%s" % (m, val), "%s:%s:" % (m, val), ":%s:%s" % (m, val),
+                        "%s%s" % (m, val)):
+                colons.append(P + "/".join(f[:i] + [bad] + f[i + 1:]))
+    return out + INVALID + wrapped + colons
 
 
 OTHER_VECTOR = "CVSS:3.1/AV:L/AC:H/PR:H/UI:R/S:U/C:L/I:N/A:N"
